@@ -9,10 +9,10 @@ end, and a Go `swap(kvs[i], kvs[j-1])` with `j-1` the last index of the middle r
 element by element (it is compared with the real slice on every `newset` line).
 
 Floats travel as IEEE-754 bit patterns (`UInt64`); there is no `Float` anywhere.
-External: `slices.SortStableFunc` is modelled as written in the Go standard library for its
-insertion-sort phase and block structure (`goSortStable`; only `symMergeCmpFunc` is a contract:
-stable merge); `sortStable` is the reference stable sort (Props: `stable_sort_unique`,
-`goSortStable_eq`). `sort.Search` is modelled as written in the Go standard library.
+External: `slices.SortStableFunc` is modelled as written in the Go standard library
+(`goSortStableSym`: insertion-sorted blocks, merge rounds, `symMergeCmpFunc` with its binary searches
+and recursion; only the swap loops / `rotateCmpFunc` by their effect); `sortStable` is the reference
+stable sort (Props: `stable_sort_unique`, `symMerge_is_stable_merge`, `sortStableFunc_is_stable_sort`). `sort.Search` is modelled as written in the Go standard library.
 -/
 import Otel.Base.Utf8
 namespace Otel
@@ -218,6 +218,74 @@ def mergeRounds : Nat → List (List KV) → List KV
 def goSortStable (l : List KV) : List KV :=
   mergeRounds l.length ((sortBlocks 20 l.length l).map goInsertionSort)
 
+/-- `KeyValue{}`: what `Get` returns out of range -/
+def zeroKV : KV := ⟨[], .invalid⟩
+
+/-- `sort.Search`'s loop (`i, j := 0, n; for i < j { h := (i+j)/2; if !f(h) {i = h+1} else {j = h} }`) -/
+def searchAux (f : Nat → Bool) : Nat → Nat → Nat → Nat
+  | 0, i, _ => i
+  | fuel + 1, i, j =>
+    if i < j then
+      let h := (i + j) / 2
+      if !f h then searchAux f fuel (h + 1) j else searchAux f fuel i h
+    else i
+
+/-! ### `symMergeCmpFunc` (slices/zsortanyfunc.go) with its binary searches and its recursion -/
+
+/-- `data[i]` of a segment (the zero KeyValue out of range: never read) -/
+def dAt (l : List KV) (i : Nat) : KV := (l[i]?).getD zeroKV
+
+/-- `symMergeCmpFunc(data, a, m, b)` on the segment `data[a:b] = L ++ R` (`L = data[a:m]`, `R = data[m:b]`,
+indices relative to `a`). The three binary-search loops are the loop of `searchAux` (same
+`h := (i+j)/2`, same update) with the comparison of each site; the swap loops of the two
+single-element cases and `rotateCmpFunc` are modelled by their effect (moving one element / exchanging
+the two adjacent blocks `data[start:m]`, `data[m:end]`); the two recursive calls and their guards are literal. -/
+def symMerge : Nat → List KV → List KV → List KV
+  | 0, L, R => L ++ R
+  | f + 1, L, R =>
+    let M := L.length
+    let N := R.length
+    let D := L ++ R
+    if M = 0 ∨ N = 0 then L ++ R
+    else if M = 1 then
+      -- `if cmp(data[h], data[a]) < 0 { i = h + 1 } else { j = h }` over [m, b)
+      let i := searchAux (fun h => !bLt (dAt D h).key (dAt D 0).key) (M + N) M (M + N)
+      R.take (i - M) ++ dAt D 0 :: R.drop (i - M)
+    else if N = 1 then
+      -- `if !(cmp(data[m], data[h]) < 0) { i = h + 1 } else { j = h }` over [a, m)
+      let i := searchAux (fun h => bLt (dAt D M).key (dAt D h).key) (M + N) 0 M
+      L.take i ++ dAt D M :: L.drop i
+    else
+      let mid := (M + N) / 2
+      let n := mid + M
+      let start0 := if M > mid then n - (M + N) else 0
+      let r0 := if M > mid then mid else M
+      let p := n - 1
+      -- `if !(cmp(data[p-c], data[c]) < 0) { start = c + 1 } else { r = c }`
+      let start := searchAux (fun c => bLt (dAt D (p - c)).key (dAt D c).key) (M + N) start0 r0
+      let e := n - start
+      let L1 := L.take start
+      let L2 := L.drop start
+      let R1 := R.take (e - M)
+      let R2 := R.drop (e - M)
+      (if 0 < start ∧ start < mid then symMerge f L1 R1 else L1 ++ R1) ++
+        (if mid < e ∧ e < M + N then symMerge f L2 R2 else L2 ++ R2)
+
+/-- one round of the second loop of `stableCmpFunc` with `symMergeCmpFunc` itself -/
+def mergePairsSym : List (List KV) → List (List KV)
+  | r1 :: r2 :: rest => symMerge (r1.length + r2.length) r1 r2 :: mergePairsSym rest
+  | rs => rs
+
+def mergeRoundsSym : Nat → List (List KV) → List KV
+  | 0, rs => rs.flatten
+  | _ + 1, [] => []
+  | _ + 1, [r] => r
+  | f + 1, rs => mergeRoundsSym f (mergePairsSym rs)
+
+/-- `slices.SortStableFunc` with nothing left to a contract -/
+def goSortStableSym (l : List KV) : List KV :=
+  mergeRoundsSym l.length ((sortBlocks 20 l.length l).map goInsertionSort)
+
 /-! ### The in-place loops -/
 
 /-- last element to the front: what `swap(a[i], a[j-1])` does to the region `a[i+1..j)` seen from
@@ -262,7 +330,7 @@ deriving DecidableEq, Repr
 def newSetWithFiltered (kvs : List KV) (filter : Option (KV → Bool)) : NewSetResult :=
   if kvs.length = 0 then ⟨[], [], kvs⟩
   else
-    let dd := dedup (goSortStable kvs)   -- (kvs[:position], kvs[position:])
+    let dd := dedup (goSortStableSym kvs)   -- (kvs[:position], kvs[position:])
     match filter with
     | none => ⟨dd.2, [], dd.1 ++ dd.2⟩
     | some keep =>
@@ -301,16 +369,14 @@ def setFilter (s : List KV) (re : Option (KV → Bool)) : List KV × List KV :=
         let ft := filteredToFront re pre
         (ft.2 ++ suf, kv :: ft.1)
 
-/-! ### `Set.Value` : `sort.Search` + exact match -/
+/-- `(*Set).Filter(re)` on a pointer: `none` = the nil-pointer dereference `*l` of the code (every
+other method of `*Set` treats nil as the empty Set; `Filter` does not: quirk, mirrored) -/
+def setFilterP (l : SetP) (re : Option (KV → Bool)) : Option (List KV × List KV) :=
+  match l with
+  | none => none
+  | some d => some (setFilter (setToSlice (some d)) re)
 
-/-- `sort.Search`'s loop (`i, j := 0, n; for i < j { h := (i+j)/2; if !f(h) {i = h+1} else {j = h} }`) -/
-def searchAux (f : Nat → Bool) : Nat → Nat → Nat → Nat
-  | 0, i, _ => i
-  | fuel + 1, i, j =>
-    if i < j then
-      let h := (i + j) / 2
-      if !f h then searchAux f fuel (h + 1) j else searchAux f fuel i h
-    else i
+/-! ### `Set.Value` : `sort.Search` + exact match -/
 
 def search (n : Nat) (f : Nat → Bool) : Nat := searchAux f n 0 n
 
@@ -337,9 +403,6 @@ def mergeAux : Nat → List KV → List KV → List KV
 def mergeIter (a b : List KV) : List KV := mergeAux (a.length + b.length + 1) a b
 
 /-! ### `Iterator`, `oneIterator`, `MergeIterator` as the state machines of iterator.go -/
-
-/-- `KeyValue{}`: what `Get` returns out of range -/
-def zeroKV : KV := ⟨[], .invalid⟩
 
 /-- `Iterator{storage, idx}`; `storage` = the contents of the Set it points to -/
 structure Iter where
@@ -439,11 +502,51 @@ def encode (emit : Value → Bytes) (s : List KV) : Bytes := encodeLoop emit 0 s
 def natDigits (n : Nat) : Bytes := (Nat.toDigits 10 n).map (fun c => UInt8.ofNat c.toNat)
 def emitInt (bits : UInt64) : Bytes :=
   if bits.toNat < 2 ^ 63 then natDigits bits.toNat else 0x2D :: natDigits (2 ^ 64 - bits.toNat)
+/-- join with a one-byte separator -/
+def joinSep (sep : UInt8) : List Bytes → Bytes
+  | [] => []
+  | [x] => x
+  | x :: y :: r => x ++ sep :: joinSep sep (y :: r)
+
+def emitBool (b : Bool) : Bytes := if b then [0x74, 0x72, 0x75, 0x65] else [0x66, 0x61, 0x6c, 0x73, 0x65]
+
+/-- lower-case hex digit (encoding/json's `hex`) -/
+def hexLow (n : Nat) : UInt8 := if n < 10 then UInt8.ofNat (0x30 + n) else UInt8.ofNat (0x57 + n)
+
+/-- encoding/json `htmlSafeSet` for ASCII: printable, except `"` `&` `<` `>` `\` -/
+def jsonSafe (b : UInt8) : Bool :=
+  decide (0x20 ≤ b.toNat) && b != 0x22 && b != 0x26 && b != 0x3C && b != 0x3E && b != 0x5C
+
+/-- what `appendString(dst, src, escapeHTML = true)` writes for one rune of `src` -/
+def jsonChunk (c : Utf8.Chunk) : Bytes :=
+  if c.invalid then [0x5C, 0x75, 0x66, 0x66, 0x66, 0x64]                      -- \ufffd
+  else if c.rune < 0x80 then
+    let b := UInt8.ofNat c.rune
+    if jsonSafe b then [b]
+    else if b == 0x5C || b == 0x22 then [0x5C, b]
+    else if b == 0x08 then [0x5C, 0x62]
+    else if b == 0x0C then [0x5C, 0x66]
+    else if b == 0x0A then [0x5C, 0x6E]
+    else if b == 0x0D then [0x5C, 0x72]
+    else if b == 0x09 then [0x5C, 0x74]
+    else [0x5C, 0x75, 0x30, 0x30, hexLow (c.rune / 16), hexLow (c.rune % 16)]
+  else if c.rune = 0x2028 then [0x5C, 0x75, 0x32, 0x30, 0x32, 0x38]
+  else if c.rune = 0x2029 then [0x5C, 0x75, 0x32, 0x30, 0x32, 0x39]
+  else c.bytes
+
+/-- a JSON string as `json.Marshal` writes it -/
+def jsonString (s : Bytes) : Bytes := 0x22 :: ((Utf8.chunks s).flatMap jsonChunk ++ [0x22])
+
+/-- `Value.Emit` (value.go) for every type except FLOAT64 / FLOAT64SLICE (strconv float formatting is
+external): BOOL, INT64 via strconv; BOOLSLICE via `fmt.Sprint` (`[true false]`); INT64SLICE and
+STRINGSLICE via `json.Marshal` (`[1,-2]`, `["a","b"]` with JSON/HTML escaping); INVALID ↦ "unknown" -/
 def emitKnown : Value → Option Bytes
   | .invalid => some "unknown".toUTF8.toList
-  | .bool true => some "true".toUTF8.toList
-  | .bool false => some "false".toUTF8.toList
+  | .bool b => some (emitBool b)
   | .int b => some (emitInt b)
+  | .bools l => some (0x5B :: (joinSep 0x20 (l.map emitBool) ++ [0x5D]))
+  | .ints l => some (0x5B :: (joinSep 0x2C (l.map emitInt) ++ [0x5D]))
+  | .strs l => some (0x5B :: (joinSep 0x2C (l.map jsonString) ++ [0x5D]))
   | _ => none
 
 /-! ### scripts: several calls on several Sets whose results all stay alive
